@@ -348,7 +348,11 @@ theorem C18_undefined_on_null_table :
     `readsplinefitstable`, `readsplinefitstable_mem` (they create the object).  **Undefined** — the wrapper forms
     `*static_cast<…*>(table->data)` without a test: the list below (on top of it, with an object *without data* behind
     the handle the C++ operations behind the per-dimension getters and the evaluation functions are themselves
-    undefined; that is a matter of the C++ class, not of the wrapper). -/
+    undefined; that is a matter of the C++ class, not of the wrapper.  The wrappers of this list whose C++ operation *is*
+    defined on an object without data — `splinetable_ndim` (0), `splinetable_total_ncoeffs` (the empty product 1),
+    `tablesearchcenters` (no dimension to test: success), the writers, `splinetable_permute` with the empty
+    permutation — are inside `cDefined` on such an object like on any live one, and the differential run calls them
+    there: after `splinetable_init`, after a failed read / fit, after a convolve that emptied the table). -/
 theorem C18_undefined_without_object :
     (wrappers.filter (fun w => w.derefsData && !w.nullChecked.contains "table->data" &&
         !["splinetable_free", "readsplinefitstable_mem"].contains w.name)).map (·.name) =
